@@ -140,10 +140,17 @@ fn quorum_of(q: u8) -> (Quorum, usize) {
     }
 }
 
+/// 520 ops of the fixed big-register owner, built once per process.
+fn big_block(base: &SignedRegister, owner: &bls::SecretKey) -> &'static Vec<RegisterOp> {
+    static BLOCK: std::sync::OnceLock<Vec<RegisterOp>> = std::sync::OnceLock::new();
+    BLOCK.get_or_init(|| (0..520u32).map(|n| data::register_op(base, 10_000 + n, owner)).collect())
+}
+
 impl<'a> World<'a> {
     fn new(plan: &'a Plan, rep: RunReport, driver: SwarmDriver, network: Network) -> Self {
         let s = plan.seed;
-        let owner = data::bls_key(s, 1);
+        // the big-register block is signed once per process by a fixed owner
+        let owner = if plan.big_register { data::bls_key(0xB16, 1) } else { data::bls_key(s, 1) };
         let stranger = data::bls_key(s, 2);
         let key_bytes = data::expected_owner_key(&owner.public_key());
         let key = RecordKey::new(&key_bytes);
@@ -172,6 +179,9 @@ impl<'a> World<'a> {
                         if mask & (1 << b) != 0 {
                             ops.push(data::register_op(&base, b, &owner));
                         }
+                    }
+                    if plan.big_register {
+                        ops.extend(big_block(&base, &owner).iter().cloned());
                     }
                     let mut verifies = true;
                     if mask & 32 != 0 {
